@@ -385,4 +385,8 @@ class FRun:
         for d in pending:                  # events that were waiting in the dead process: delivered again
             self.redeliver(d, ev)
         out['recovered_trees'] = dest_trees(w)
+        # "at every moment the remote repository can be observed": also right after the recovery
+        prs = self.pr_list()
+        out['all_or_none_recovered'] = [b for b in all_or_none_breaks(w, prs) if (b[0], b[1]) not in bad_before]
+        out['inclusion_recovered'] = [] if incl_before else w.inclusion_breaks(w.refs())
         return out
